@@ -431,7 +431,8 @@ def float_vectors(ctx):
 
 def veto_grids(ctx):
     gs = [("leaf", (1.0, 1.0), (4, 5), 1), ("leaf", (1.0, 1.0, 1.0), (4, 4, 4), 1),
-          ("composite", (1.0, 2.0), (5, 4), 1), ("leaf", (1.0, 1.0, 1.0), (3, 5, 7), 1)]
+          ("composite", (1.0, 2.0), (5, 4), 1), ("leaf", (1.0, 1.0, 1.0), (3, 5, 7), 1),
+          ("leaf", (2.5, 1.0), (5, 4), 1)]  # first side much longer than the second
     if ctx.thorough:
         gs += [("composite", (1.0, 1.0, 1.0), (4, 4, 4), 1), ("composite", (1.0, 1.0, 1.0), (3, 5, 7), 1),
                ("leaf", (1.0, 1.0), (7, 6), 2), ("composite", (3.0, 1.0), (6, 7), 2)]
